@@ -525,12 +525,48 @@ def reconfigured(run):
                               dict(target=target, how=how, reconfigured=[list(map(str, x)) for x in res[0]], fresh=[list(map(str, x)) for x in res[1]]))
 
 
+def handoff(run):
+    """a configured hasher object taken out of one context (`ctx.handler(name)`) and given to another as a scheme: the receiving
+    context's own policy decides (deprecation flags and cost windows of the donor must not travel with the object)"""
+    from passlib.context import CryptContext
+    for s, opts in (("md5_crypt", {}), ("des_crypt", {}), ("ldap_md5", {}), ("phpass", {"phpass__default_rounds": 7}), ("pbkdf2_sha256", {"pbkdf2_sha256__default_rounds": 12}),
+                    ("sha256_crypt", {"sha256_crypt__default_rounds": 1000}), ("ldap_salted_sha1", {})):
+        for dep in ([s], "auto"):
+            donor = CryptContext(schemes=["sha1_crypt", s], deprecated=dep, sha1_crypt__default_rounds=5, **opts)
+            donor.hash(PW)
+            obj = donor.handler(s)
+            for layout in ("alone", "first", "second-deprecated"):
+                w = dict(scheme=s, donor_deprecated=dep, layout=layout)
+                try:
+                    if layout == "alone":
+                        recv = CryptContext(schemes=[obj])
+                    elif layout == "first":
+                        recv = CryptContext(schemes=[obj, "sha1_crypt"], sha1_crypt__default_rounds=5)
+                    else:
+                        recv = CryptContext(schemes=["sha1_crypt", obj], deprecated=[s], sha1_crypt__default_rounds=5)
+                    hs = recv.hash(PW, scheme=s) if layout == "second-deprecated" else recv.hash(PW)
+                    want_update = layout == "second-deprecated"
+                    got = (recv.identify(hs), recv.verify(PW, hs), recv.needs_update(hs))
+                    ok, new = recv.verify_and_update(PW, hs)
+                    new2 = recv.verify_and_update(PW, new)[1] if new is not None else None
+                except Exception as e:
+                    run.violation(f"C04|handoff|{layout}|raises|{type(e).__name__}", f"context over a hasher object taken from another context raised {type(e).__name__}: {str(e)[:80]}", w)
+                    continue
+                run.count("handoff_cases")
+                run.case(("handoff", s, str(dep), layout), dict(w, answers=list(map(str, got))))
+                if got != (s, True, want_update) or ok is not True or (new is not None) != want_update or new2 is not None:
+                    run.violation(f"C04|handoff|{layout}|donor-policy-travels", f"{s} object from a context where it is deprecated ({dep}), used as {layout}: identify/verify/needs_update = {got}, "
+                                  f"verify_and_update -> ({ok}, {'new' if new else None}), second pass -> {'new again' if new2 else None}; expected needs_update={want_update}", dict(w, got=list(map(str, got))))
+
+
 def body(run):
     total = 320 if run.tier == "quick" else 6400
     per = total // 16
     run.parallel("checks.c04", "work", [dict(start=i * per, count=per) for i in range(16)], timeout=900 if run.tier == "quick" else 5400)
     reconfigured(run)
     run.require("reconfigured_cases", 12)
+    handoff(run)
+    run.require("handoff_cases", 30)
     niso = 48 if run.tier == "quick" else 960
     run.parallel("checks.c04", "isolation", [dict(start=90000 + i * (niso // 16), count=niso // 16) for i in range(16)], timeout=900 if run.tier == "quick" else 3600)
     run.require("isolation_cases", niso // 3)
